@@ -1,13 +1,13 @@
 #!/bin/bash
 # tools/run_all.sh [tier] [ids...]  -- run checks sequentially, one summary line each; exit 1 if any check did not exit 0
-cd /verif; TIER=${1:-quick}; shift
+cd "$(dirname "$(readlink -f "$0")")/.." || exit 2; TIER=${1:-quick}; shift
 IDS=${@:-C01 C02 C03 C04 C05 C06 C07 C08 C09 C10 C11 C12 C13 C14 C15 C16 C17 C18 C19 C20}
 bad=0
 for c in $IDS; do
   s=$(date +%s)
-  ./check $c --tier $TIER > /tmp/run_all_$c.log 2>&1; rc=$?
+  ./check $c --tier $TIER > /tmp/run_all_${TIER}_$c.log 2>&1; rc=$?
   e=$(date +%s)
-  echo "$c rc=$rc wall=$((e-s))s $(grep -E "^\[$c\]" /tmp/run_all_$c.log | sed 's/evidence=.*//') $(grep -c '^VIOLATION' /tmp/run_all_$c.log) violation-lines $(grep -c '^KNOWN-FINDING' /tmp/run_all_$c.log) known $(grep -c 'HARNESS-ERROR' /tmp/run_all_$c.log) harness"
+  echo "$c rc=$rc wall=$((e-s))s $(grep -E "^\[$c\]" /tmp/run_all_${TIER}_$c.log | sed 's/evidence=.*//') $(grep -c '^VIOLATION' /tmp/run_all_${TIER}_$c.log) violation-lines $(grep -c '^KNOWN-FINDING' /tmp/run_all_${TIER}_$c.log) known $(grep -c 'HARNESS-ERROR' /tmp/run_all_${TIER}_$c.log) harness"
   [ $rc -ne 0 ] && bad=1
 done
 exit $bad
